@@ -118,9 +118,29 @@ end Json
 def transformValue (j : Json) : Option (List Char) :=
   if j.isContainer then j.jcs else none
 
-/-- `jsoncanonicalizer.Transform` on text -/
+namespace Json
+mutual
+/-- nesting depth: how many arrays / objects are open at the deepest place -/
+def depth : Json → Nat
+  | .arr xs => 1 + depthList xs
+  | .obj kvs => 1 + depthMembers kvs
+  | _ => 0
+def depthList : List Json → Nat
+  | [] => 0
+  | x :: xs => max (depth x) (depthList xs)
+def depthMembers : List (String × Json) → Nat
+  | [] => 0
+  | (_, x) :: xs => max (depth x) (depthMembers xs)
+end
+end Json
+
+/-- the transformer's bound on nesting (the one `encoding/json` has), since the D34 repair -/
+def maxNesting : Nat := 10000
+
+/-- `jsoncanonicalizer.Transform` on text: the text is read, nesting deeper than `maxNesting` is
+    refused, the value is canonicalized -/
 def transform (text : List Char) : Option (List Char) :=
-  (Parse.parse text).bind transformValue
+  (Parse.parse text).bind fun j => if j.depth ≤ maxNesting then transformValue j else none
 
 def jcsString (j : Json) : Option String := j.jcs.map String.ofList
 
